@@ -1,4 +1,5 @@
 import Drx.Lscr
+import Drx.Lscr.LitEval
 import Drx.Drv.Util
 namespace Drx.Drv.Lscr
 open Drx Drx.Drv Drx.Lscr
@@ -121,6 +122,58 @@ def run : List String → Option String
       (pr, acc.2 ++ [o])) ({}, [])
     let anyErr := outs.any fun o => match o with | .str s => s == "error".toList | _ => false
     some (J.obj [("regs", regsJ pr.regs), ("tree", if anyErr then J.null else match pr.tree with | some t => scriptJ t | none => J.null)]).render
+  -- C11: constants of a script as stored by parse_lrcr_crb, with their Lingo and JavaScript literals
+  | ["consts", l] => do
+    let d ← bytesOfHex l
+    let r : R (List Name) := do
+      let h ← parseHeader d
+      let (cs, _) ← parseCrb .macRoman d h.crbOff h.conOff h.crbN
+      pure cs
+    some (match r with
+      | .ok cs => (J.arr (cs.map fun c => J.arr [nameJ c, nameJ (constLingo c), nameJ (constJs c)])).render
+      | .error _ => (J.s "error").render)
+  | ["cstr", h] => do
+    let b ← bytesOfHex h
+    some (match decodeText .macRoman b with
+      | .ok s => let c := Name.s (escapeString s); (J.arr [nameJ c, nameJ (constLingo c), nameJ (constJs c)]).render
+      | .error _ => (J.s "error").render)
+  | ["cint8", a] => do
+    let a ← parseNat a
+    let c := Name.s (intStr (int1b a))
+    some (J.arr [nameJ c, nameJ (constLingo c), nameJ (constJs c)]).render
+  | ["cint16", a, b] => do
+    let a ← parseNat a; let b ← parseNat b
+    let c := Name.s (intStr (int2b a b))
+    some (J.arr [nameJ c, nameJ (constLingo c), nameJ (constJs c)]).render
+  | ["cfloat", h] => do
+    let b ← bytesOfHex h
+    some (match unpackFloat80 b with
+      | .ok s => (J.str s).render
+      | .error _ => (J.s "error").render)
+  | ["lingosafe", h] => do
+    let b ← bytesOfHex h
+    some (J.bool (decide (LingoSafe b))).render
+  -- spec-side readers (texts are UTF-8 in hex)
+  | ["evallingo", h] => do
+    let b ← bytesOfHex h
+    some (match decodeUtf8 b with
+      | .ok s => (match evalLingoLit s with | some v => J.str v | none => J.null).render
+      | .error _ => "bad-op")
+  | ["evaljs", h] => do
+    let b ← bytesOfHex h
+    some (match decodeUtf8 b with
+      | .ok s => (match evalJsLit s with | some v => J.str v | none => J.null).render
+      | .error _ => "bad-op")
+  | ["evalint", h] => do
+    let b ← bytesOfHex h
+    some (match decodeUtf8 b with
+      | .ok s => (match evalIntLit s with | some v => J.int v | none => J.null).render
+      | .error _ => "bad-op")
+  | ["evaldec", h] => do
+    let b ← bytesOfHex h
+    some (match decodeUtf8 b with
+      | .ok s => (match evalDecimal s with | some (n, m, e) => J.arr [J.bool n, J.nat m, J.int e] | none => J.null).render
+      | .error _ => "bad-op")
   | _ => none
 
 end Drx.Drv.Lscr
